@@ -58,6 +58,8 @@ pub fn c12_scenario() -> Scenario {
             Touch { doc: "a.td", text: "include \"b.td\"\ndef x : BufB;\n".into() },
             Touch { doc: "a.td", text: "// edited\ninclude \"b.td\"\ndef y : BufB2;\n".into() },
             Touch { doc: "a.td", text: "include \"b.td\"\ndef z : DiskB;\n".into() },
+            // the root without its include: b.td leaves the workspace but stays open in the editor
+            Touch { doc: "a.td", text: "def w;\n".into() },
             Touch { doc: "b.td", text: "class BufB;\n".into() },
             Touch { doc: "b.td", text: "class BufB2;\n".into() },
             Touch { doc: "b.td", text: "class BufB;\nclass BufB2;\ndef bb : Nope;\n".into() },
@@ -289,7 +291,7 @@ impl Engine for C12 {
     }
     fn rule(&self, tier: Tier) -> String {
         format!(
-            "every session of <= {} messages over {{a.td := 3 texts, b.td := 3 texts}} where a.td includes b.td, the on-disk b.td declares DiskB and the editor's b.td declares BufB / BufB2 (a's texts refer to one of them), \
+            "every session of <= {} messages over {{a.td := 4 texts (three include b.td, one does not, so that b.td leaves and re-enters the workspace while open), b.td := 3 texts}}, the on-disk b.td declares DiskB and the editor's b.td declares BufB / BufB2 (a's texts refer to one of them), \
              first message to a document = didOpen, later = didChange; after EVERY message the latest publications and the documentSymbol response of every open document must match the reference session model \
              (texts = disk overlaid by open buffers, root = last touched document). states = distinct (buffers, root) configurations; transitions = messages; non-trivial = sessions of >= 2 messages.",
             tier.pick(4, 5)
